@@ -217,11 +217,35 @@ def c04e(ctx):
     defs = Defs(fn.node)
     pastes = [x for x in fn.walk() if is_call(x, 'result.paste', 'paste') and len(x.args) >= 2]
     ok = bool(pastes)
+    cf = Canon(fn)
+    cp = fn.params[1]
     for p in pastes:
-        pos = p.args[1]
+        # closed form of the paste position at the paste: component i is a function of the *unclamped* crop coordinate i
+        pos = cf.linked(p.args[1])
         elts = pos.elts if isinstance(pos, ast.Tuple) else []
-        names = {k: {n for n, ds in defs.defs.items() for v, sel in ds if sel == k and unparse(v) == 'crop_coord'} for k in (0, 1)}
-        ok = ok and len(elts) == 2 and contains(elts[0], lambda y: isinstance(y, ast.Name) and y.id in names[0]) and \
-            contains(elts[1], lambda y: isinstance(y, ast.Name) and y.id in names[1])
+        ok = ok and len(elts) == 2
+        for i, e in enumerate(elts[:2]):
+            uses = [x for x in ast.walk(e) if isinstance(x, ast.Subscript) and unparse(x.value) == cp and const_value(x.slice) == i]
+            clamped = []
+            for u in uses:
+                par = getattr(u, '_parent', None)
+                while par is not None:
+                    if isinstance(par, ast.Call) and call_name(par) == 'max':
+                        clamped.append(u)
+                    par = getattr(par, '_parent', None)
+            ok = ok and bool(uses) and not clamped
     ctx.check(ok, 'TileSplitter.get_tile:paste-at-overhang', 'the clipped crop is pasted at an offset that depends on the (negative) crop x and y', fn,
-              fail='the clipped crop of a border tile is pasted at a fixed position: tiles whose crop starts outside the meta image are shifted')
+              fail='the clipped crop of a border tile is pasted at a fixed position (or at one computed from the already clamped crop origin, '
+                   'which is always 0): tiles whose crop starts outside the meta image are shifted')
+
+
+@rule('C04.f', floor=4)
+def c04f(ctx):
+    """all tiles of a meta tile are stored where they are looked up: a bulk store that crosses a bundle border is split per tile
+    (or sent to one bundle only when all tiles share it) -- shared rule C05.l"""
+    sub = run_property(ctx.repo, 'C05', ctx.tier, only={'C05.l'})
+    for er in sub.errors:
+        raise Undecided('shared rule %s: %s' % er)
+    for o in sub.obs:
+        (ctx.ok if o.status == 'ok' else ctx.bad)('%s:%s' % (o.rule, o.construct), o.msg, o.where)
+    ctx.stats['functions'] |= sub.stats['functions']
